@@ -1,69 +1,184 @@
-import PdtVerif.Lemmas.Checkpoint
+import PdtVerif.Lemmas.CheckpointFormats
 /-!
 # C16 — a crash during an epoch update never loses the last or best checkpoint
 
 Model: `Model/Checkpoint.lean` (the mutating calls of `update_for_epoch` in the order the code
-makes them; `Quirks.fixed` = the tree with `fixes/C16-*.diff` applied, `Quirks.pinned` = the pinned
-tree). Spec: `Spec/Recoverable.lean` (`Rec`, `RecAt`, `ExactLB`, `AllLoadable`, `RecAll`, `Inj`).
-Proofs: `Lemmas/Checkpoint.lean` (this file states the property theorems and instantiates them).
+makes them — every `f.write` of a history line is a call of its own; `Quirks.fixed` = the tree with
+`fixes/C16-*.diff` applied, `Quirks.pinned` = the pinned tree). Spec: `Spec/Recoverable.lean` (`Rec`,
+`RecAt`, `ExactLB`, `AllLoadable`, `RecAll`, `Inj`, `SafeAt`, `SafeFmt`, `Sep`). Proofs:
+`Lemmas/Checkpoint.lean`, `Lemmas/CheckpointFormats.lean` (this file states the property theorems and
+instantiates them).
 
-`Inj P`: the two file-name formats are injective in the epoch (they contain `{epoch}`).
+`SafeAt P vals k`: the update of epoch `k+1` is checkpoint-first (does not refuse, `save_info_first`
+is `False`) — a condition on the two file-name formats and the metric history. `SafeFmt P vals`: all
+updates of the history are. `Sep P vals k`: the last and the best epoch have different file names.
+`Inj P`: the two formats are injective in the epoch (they contain `{epoch}`); it implies the others.
 `U tr e`: the state an uninterrupted run saves for epoch `e` (`tr` = any deterministic training).
+`vals`: the metric column that decides "best" (`deciding bestIsTrain ms`).
 -/
 namespace PdtVerif.Checkpoint
 
-/-! ## crash safety, operation by operation -/
+/-! ## which formats are covered -/
 
-/-- With epoch-keyed names the update never refuses (no `ValueError`). -/
-theorem C16_never_refuses {P : Params} (hi : Inj P) (Q : Quirks) (vals : List (Option Int)) (k : Nat)
-    (d : Disk) (s : Nat × Nat) : ∃ main cl, planUpdate Q P vals k d s = .ok (main, cl) :=
-  c16_never_refuses hi Q vals k d s
+/-- Formats with the `{epoch}` field are checkpoint-first for EVERY metric history, and keep the
+names of the last and the best epoch apart. -/
+theorem C16_inj_safe {P : Params} (hi : Inj P) (vals : List (Option Int)) :
+    SafeFmt P vals ∧ ∀ k, SafeAt P vals k ∧ Sep P vals k :=
+  ⟨hi.safeFmt vals, fun k => ⟨hi.safeAt vals k, hi.sep vals k⟩⟩
+
+/-- A checkpoint-first update never refuses (no `ValueError`). -/
+theorem C16_never_refuses {P : Params} {vals : List (Option Int)} {k : Nat} (hs : SafeAt P vals k)
+    (Q : Quirks) (d : Disk) (s : Nat × Nat) : ∃ main cl, planUpdate Q P vals k d s = .ok (main, cl) :=
+  c16_never_refuses hs Q d s
+
+/-! ## crash safety, call by call -/
 
 /-- **Every single mutating call of every update preserves recoverability.** `d` is any disk on
 which a new controller recovers (`Rec`: garbage allowed, so `d` may be the result of any number of
 earlier crashes); the controller has `k` epochs recorded and saves the state `U tr (k+1)`; the
-clean-up may run in any order and over any part `cl'` of the planned set; the process may be killed
-after any number `i` of the mutating calls. -/
-theorem C16_rec_step {P : Params} (hi : Inj P) (vals : List (Option Int)) (tr : Train) (d : Disk)
+update is checkpoint-first and the last and best epoch have different names (both hold for formats
+with `{epoch}`: `C16_inj_safe`); the clean-up may run in any order and over any part `cl'` of the
+planned set; the process may be killed after any number `i` of the mutating calls — `open(csv)`,
+the write of the header line and the write of the data row are three separate calls. -/
+theorem C16_rec_step {P : Params} (vals : List (Option Int)) (tr : Train) (d : Disk)
     (hrec : Rec P vals tr d) (k : Nat) (hk : recorded d = some k) (hlt : k < vals.length)
+    (hs : SafeAt P vals k) (hsep : Sep P vals k)
     (main : List FsOp) (cl : List Path)
     (hplan : planUpdate Quirks.fixed P vals k d (tr (k + 1) (U tr k)) = .ok (main, cl))
     (cl' : List Path) (hcl : ∀ p ∈ cl', p ∈ cl) (i : Nat) :
     Rec P vals tr (exec d ((opsOf main cl').take i)) :=
-  c16_rec_step hi vals tr d hrec k hk hlt main cl hplan cl' hcl i
+  c16_rec_step vals tr d hrec k hk hlt hs hsep main cl hplan cl' hcl i
+
+/-- The same when call `i` itself is executed half-way (`tear`: a `torch.save` into the temp file
+stops anywhere; `makedirs`, `NamedTemporaryFile`, `os.replace`, `open`, `os.remove` and the header
+line are atomic in the model), under the explicit ATOMICITY HYPOTHESIS `hat`: call `i` is not the
+write of a history data row — a row reaches the file whole or not at all. -/
+theorem C16_rec_step_torn {P : Params} (vals : List (Option Int)) (tr : Train) (d : Disk)
+    (hrec : Rec P vals tr d) (k : Nat) (hk : recorded d = some k) (hlt : k < vals.length)
+    (hs : SafeAt P vals k) (hsep : Sep P vals k)
+    (main : List FsOp) (cl : List Path)
+    (hplan : planUpdate Quirks.fixed P vals k d (tr (k + 1) (U tr k)) = .ok (main, cl))
+    (cl' : List Path) (hcl : ∀ p ∈ cl', p ∈ cl) (i : Nat)
+    (hat : ∀ e, (opsOf main cl')[i]? ≠ some (.hwrite (.row e))) :
+    Rec P vals tr (tornDisk tear d (opsOf main cl') i) :=
+  c16_rec_step_torn vals tr d hrec k hk hlt hs hsep main cl hplan cl' hcl i hat
+
+/-- **The atomicity hypothesis is needed** (known finding `C16.history.torn_row`). In the
+checkpoint-first update of ANY recoverable disk, call number `8 + histOps.length - 1` is the write
+of the data row; when it stops half-way, every later controller raises while reading the history
+(`recorded = none`, so `Rec` fails) although both checkpoints are in place. -/
+theorem C16_torn_row_window {P : Params} {vals : List (Option Int)} {tr : Train} {d : Disk} {k : Nat}
+    (hrec : RecAt P vals tr d k) (s : Nat × Nat) (cl : List Path) :
+    (opsOf (saveOps P d (k + 1) s ++ histOps Quirks.fixed d (k + 1)) cl)[8 +
+        (histOps Quirks.fixed d (k + 1)).length - 1]? = some (.hwrite (.row (k + 1))) ∧
+    recorded (tornDisk tear d (opsOf (saveOps P d (k + 1) s ++ histOps Quirks.fixed d (k + 1)) cl)
+      (8 + (histOps Quirks.fixed d (k + 1)).length - 1)) = none ∧
+    ¬ Rec P vals tr (tornDisk tear d (opsOf (saveOps P d (k + 1) s ++ histOps Quirks.fixed d (k + 1)) cl)
+      (8 + (histOps Quirks.fixed d (k + 1)).length - 1)) := by
+  obtain ⟨h1, h2⟩ := c16_torn_row hrec s cl
+  refine ⟨h1, h2, ?_⟩
+  rintro ⟨k', hk', _⟩
+  rw [h2] at hk'
+  cases hk'
 
 /-- The same for a complete update: afterwards `k+1` epochs are recorded. -/
-theorem C16_rec_full {P : Params} (hi : Inj P) (vals : List (Option Int)) (tr : Train) (d : Disk)
+theorem C16_rec_full {P : Params} (vals : List (Option Int)) (tr : Train) (d : Disk)
     (k : Nat) (hrec : RecAt P vals tr d k) (hlt : k < vals.length)
+    (hs : SafeAt P vals k) (hsep : Sep P vals k)
     (main : List FsOp) (cl : List Path)
     (hplan : planUpdate Quirks.fixed P vals k d (tr (k + 1) (U tr k)) = .ok (main, cl))
     (cl' : List Path) (hcl : ∀ p ∈ cl', p ∈ cl) :
     RecAt P vals tr (exec d (opsOf main cl')) (k + 1) :=
-  c16_rec_full hi vals tr d k hrec hlt main cl hplan cl' hcl
+  c16_rec_full vals tr d k hrec hlt hs hsep main cl hplan cl' hcl
+
+/-! ## which updates are crash safe: any pair of formats -/
+
+/-- **History row first ⇒ window.** When the history row is appended before the checkpoint is
+written (`save_info_first`), the disk right after the row names epoch `k+1` while the files under
+its names are what they were before: unless they already hold the state to be saved, the disk is
+not recoverable. Any formats, any recoverable disk, any metric history. -/
+theorem C16_infofirst_window {P : Params} {vals : List (Option Int)} {tr : Train} {d : Disk} {k : Nat}
+    (hrec : RecAt P vals tr d k) (hne : loadState P d (k + 1) ≠ some (U tr (k + 1)))
+    (s : Nat × Nat) (cl : List Path) :
+    ¬ Rec P vals tr (exec d ((opsOf (histOps Quirks.fixed d (k + 1) ++ saveOps P d (k + 1) s) cl).take
+      (histOps Quirks.fixed d (k + 1)).length)) :=
+  c16_infofirst_window hrec hne s cl
+
+/-- **Characterisation of the crash-safe updates**, for ANY pair of file-name formats (constant,
+injective in the epoch, depending on a metric, …): from a recoverable disk with `k` epochs recorded,
+an update that does not refuse and whose new paths do not already hold the state to be saved keeps
+the disk recoverable at every crash point, for every part and order of the clean-up, **iff** the
+code's `save_info_first` is `False` — i.e. iff the new names differ from those of the last and of
+the last-best epoch (keep-last-and-best) / of every recorded epoch (keep-everything). -/
+theorem C16_rec_step_iff {P : Params} {vals : List (Option Int)} {tr : Train} {d : Disk} {k : Nat}
+    (hrec : RecAt P vals tr d k) (hk : k < vals.length) (hr : refuses P vals k = false)
+    (hsep : Sep P vals k) (hne : loadState P d (k + 1) ≠ some (U tr (k + 1))) :
+    (∀ cl', (∀ p ∈ cl', p ∈ cleanSet P vals k d) → ∀ i,
+        Rec P vals tr (exec d ((opsOf (mainOps Quirks.fixed P vals k d (U tr (k + 1))) cl').take i))) ↔
+      infoFirst Quirks.fixed P vals k d = false :=
+  c16_rec_step_iff hrec hk hr hsep hne
+
+/-- **Names formatted from the metric only** (`"model_{val_met:.3f}.pt"`; `g` = the formatted metric,
+injective), keep-last-and-best: the update of epoch `k+1` is checkpoint-first iff (it is the new
+best, or its metric differs from the best one's) and (the best is epoch `k`, or its metric differs
+from epoch `k`'s and from the previous best's). -/
+theorem C16_metric_format_safeAt_iff (g : Option Int → Nat) (hg : ∀ a b, g a = g b → a = b)
+    (vals : List (Option Int)) (k : Nat) :
+    SafeAt (metricP true g vals) vals k ↔
+      ((bestOf (vals.take (k + 1)) = k + 1 ∨
+          metricAt vals (k + 1) ≠ metricAt vals (bestOf (vals.take (k + 1)))) ∧
+        (bestOf (vals.take (k + 1)) = k ∨
+          (metricAt vals (k + 1) ≠ metricAt vals k ∧
+            metricAt vals (k + 1) ≠ metricAt vals (bestOf (vals.take k))))) :=
+  metricP_safeAt_iff g hg vals k
+
+/-- … and over a whole history: every update is checkpoint-first (hence every theorem of this file
+that assumes `SafeFmt` applies) iff every epoch that is NOT a new best has a metric different from
+the best one's (otherwise `update_for_epoch` raises) and — unless the best is the epoch just before
+it — different from that of the epoch just before it (otherwise the row goes first:
+`C16_infofirst_window`). A new best epoch is always safe (`get_best_epoch` keeps the first strict
+minimum). -/
+theorem C16_metric_format_iff (g : Option Int → Nat) (hg : ∀ a b, g a = g b → a = b)
+    (vals : List (Option Int)) :
+    SafeFmt (metricP true g vals) vals ↔
+      ∀ k, k < vals.length → bestOf (vals.take (k + 1)) ≠ k + 1 →
+        metricAt vals (k + 1) ≠ metricAt vals (bestOf (vals.take k)) ∧
+          (bestOf (vals.take k) = k ∨ metricAt vals (k + 1) ≠ metricAt vals k) :=
+  metricP_safeFmt_iff g hg vals
 
 /-! ## sessions: any sequence of crashes and restarts -/
 
 /-- A session (new controller, load last epoch, `j` complete updates, `i` mutating calls of the
-next update, killed) leaves a recoverable disk. -/
-theorem C16_rec_crashSession {P : Params} (hi : Inj P) (vals : List (Option Int)) (tr : Train) (d : Disk)
-    (hrec : Rec P vals tr d) (j i : Nat) :
-    Rec P vals tr (crashSession Quirks.fixed P vals tr d j i) :=
-  c16_rec_crashSession hi vals tr d hrec j i
+next update, killed — `torn`: inside call `i`, a `torch.save`) leaves a recoverable disk. -/
+theorem C16_rec_crashSession {P : Params} (vals : List (Option Int)) (hs : SafeFmt P vals) (tr : Train)
+    (d : Disk) (hrec : Rec P vals tr d) (j i : Nat) (torn : Bool) :
+    Rec P vals tr (crashSession Quirks.fixed P vals tr d j i torn) :=
+  c16_rec_crashSession vals hs tr d hrec j i torn
 
 /-- **Resume.** Any number of sessions, each killed after any number of completed updates and any
 number of mutating calls of the next one, followed by a session that runs to the end: the disk is
 recoverable and all `vals.length` epochs are recorded. -/
-theorem C16_resume {P : Params} (hi : Inj P) (vals : List (Option Int)) (tr : Train) (d : Disk)
-    (hrec : Rec P vals tr d) (sched : List (Nat × Nat)) :
+theorem C16_resume {P : Params} (vals : List (Option Int)) (hs : SafeFmt P vals) (tr : Train) (d : Disk)
+    (hrec : Rec P vals tr d) (sched : List (Nat × Nat × Bool)) :
     RecAt P vals tr (faulty Quirks.fixed P vals tr d sched) vals.length :=
-  c16_resume hi vals tr d hrec sched
+  c16_resume vals hs tr d hrec sched
 
 /-- The history file after any crash/restart sequence equals the uninterrupted run's. -/
-theorem C16_resume_history {P : Params} (hi : Inj P) (vals : List (Option Int)) (tr : Train)
-    (hn : 0 < vals.length) (sched : List (Nat × Nat)) :
+theorem C16_resume_history {P : Params} (vals : List (Option Int)) (hs : SafeFmt P vals) (tr : Train)
+    (hn : 0 < vals.length) (sched : List (Nat × Nat × Bool)) :
     (faulty Quirks.fixed P vals tr Disk.blank sched).csv =
       (runToEnd Quirks.fixed P vals tr Disk.blank).csv :=
-  c16_resume_history hi vals tr hn sched
+  c16_resume_history vals hs tr hn sched
+
+/-- **`best_is_train`.** Everything above is parametric in the metric column that decides "best":
+for a history of (train, val) pairs and either value of `best_is_train`, any crash schedule ends
+with all epochs recorded, last and best-by-the-chosen-column loadable with their own states. -/
+theorem C16_best_is_train {P : Params} (bestIsTrain : Bool) (ms : List (Option Int × Option Int))
+    (hs : SafeFmt P (deciding bestIsTrain ms)) (tr : Train) (sched : List (Nat × Nat × Bool)) :
+    RecAt P (deciding bestIsTrain ms) tr
+      (faulty Quirks.fixed P (deciding bestIsTrain ms) tr Disk.blank sched) ms.length := by
+  have := c16_resume (deciding bestIsTrain ms) hs tr Disk.blank (Rec_blank P _ tr).rec sched
+  simpa [deciding] using this
 
 /-! ### non-vacuity: a concrete run -/
 
@@ -78,20 +193,50 @@ example : recOk exP exVals exTr (crashSession Quirks.fixed exP exVals exTr Disk.
 example : recOk exP exVals exTr
     (crashSession Quirks.fixed exP exVals exTr (crashSession Quirks.fixed exP exVals exTr Disk.blank 1 7) 0 11)
     = true := by decide
-example : (faulty Quirks.fixed exP exVals exTr Disk.blank [(1, 7), (0, 11)]).csv =
+example : (faulty Quirks.fixed exP exVals exTr Disk.blank [(1, 7, false), (0, 11, false)]).csv =
     some [.header, .row 1, .row 2, .row 3] := by decide
+
+/-- interrupted between the header line and the row of the first update (10 calls: save, open,
+header): the file holds the header only, a new controller sees no epoch, and the continued run
+writes no second header -/
+example : (crashSession Quirks.fixed exP exVals exTr Disk.blank 0 10).csv = some [.header] ∧
+    recOk exP exVals exTr (crashSession Quirks.fixed exP exVals exTr Disk.blank 0 10) = true ∧
+    (faulty Quirks.fixed exP exVals exTr Disk.blank [(0, 10, false)]).csv =
+      some [.header, .row 1, .row 2, .row 3] := by decide
 
 /-- the hypotheses of `C16_rec_step` hold on a concrete disk: first update of an empty directory,
 killed after 7 of its mutating calls (between the two renames) -/
 example : Rec exP exVals exTr
     (exec Disk.blank ((opsOf (saveOps exP Disk.blank 1 (1, 1) ++ histOps Quirks.fixed Disk.blank 1) []).take 7)) :=
-  C16_rec_step exP_inj exVals exTr Disk.blank (Rec_blank exP exVals exTr).rec 0 rfl (by decide)
+  C16_rec_step exVals exTr Disk.blank (Rec_blank exP exVals exTr).rec 0 rfl (by decide)
+    (exP_inj.safeAt exVals 0) (exP_inj.sep exVals 0)
     (saveOps exP Disk.blank 1 (1, 1) ++ histOps Quirks.fixed Disk.blank 1) [] rfl [] (fun _ h => h) 7
 
 /-- … and in the middle of a run, on a disk with leftovers of an earlier crash (a temp file and
 the superseded checkpoint of epoch 1): `Rec` holds there (`decide`), so the theorem applies. -/
 example : recOk exP exVals exTr (crashSession Quirks.fixed exP exVals exTr
     (crashSession Quirks.fixed exP exVals exTr Disk.blank 0 3) 1 10) = true := by decide
+
+/-- a torn `torch.save` (call 2 of epoch 2) and the atomicity hypothesis of `C16_rec_step_torn`:
+call 2 is not a history write -/
+example : recOk exP exVals exTr (crashSession Quirks.fixed exP exVals exTr Disk.blank 1 2 true) = true ∧
+    (crashSession Quirks.fixed exP exVals exTr Disk.blank 1 2 true).files.get (.tmp 0) = some .torn := by
+  decide
+
+/-- the torn data row on a concrete disk: epoch 2's row (call 9) stops half-way -/
+example : (let d := (runLoop Quirks.fixed exP exVals exTr 1 0 (0, 0) Disk.blank).2.2
+    let ops := opsOf (saveOps exP d 2 (U exTr 2) ++ histOps Quirks.fixed d 2) []
+    (tornDisk tear d ops 9).csv = some [.header, .row 1, .torn] ∧
+      recorded (tornDisk tear d ops 9) = none ∧
+      loadState exP (tornDisk tear d ops 9) 2 = some (U exTr 2)) := by decide
+
+/-- `best_is_train`: train and val columns disagree about the best epoch; the hypothesis of
+`C16_best_is_train` holds for `exP` (`C16_inj_safe`) -/
+def exMs : List (Option Int × Option Int) := [(some 500, some 400), (some 400, some 500), (some 450, some 450)]
+
+example : bestOf (deciding true exMs) = 2 ∧ bestOf (deciding false exMs) = 1 ∧
+    recOk exP (deciding true exMs) exTr
+      (faulty Quirks.fixed exP (deciding true exMs) exTr Disk.blank [(1, 7, false)]) = true := by decide
 
 /-! ## exactness of the directory in crash-free runs (keep last and best only) -/
 
@@ -131,7 +276,7 @@ theorem C16_keepall_step {P : Params} (hi : Inj P) (hkeep : P.keepLB = false) (v
 /-- **Keep everything:** after any number of killed sessions and a final one that runs to the end,
 every epoch `1..n` is loadable with exactly the state saved for it. -/
 theorem C16_keepall_loadable {P : Params} (hi : Inj P) (hkeep : P.keepLB = false) (vals : List (Option Int))
-    (tr : Train) (sched : List (Nat × Nat)) :
+    (tr : Train) (sched : List (Nat × Nat × Bool)) :
     AllLoadable P tr (faulty Quirks.fixed P vals tr Disk.blank sched) vals.length :=
   c16_keepall_loadable hi hkeep vals tr sched
 
@@ -139,7 +284,7 @@ def exPall : Params := ⟨false, fun e => e, fun e => e⟩
 
 example : Inj exPall ∧ exPall.keepLB = false := ⟨⟨fun _ _ h => h, fun _ _ h => h⟩, rfl⟩
 example : (List.range' 1 3).all (fun j => decide (loadState exPall
-    (faulty Quirks.fixed exPall exVals exTr Disk.blank [(1, 7), (0, 2)]) j = some (U exTr j))) = true := by
+    (faulty Quirks.fixed exPall exVals exTr Disk.blank [(1, 7, false), (0, 2, true)]) j = some (U exTr j))) = true := by
   decide
 
 /-! ## what is false of the code -/
@@ -149,10 +294,10 @@ example : (List.range' 1 3).all (fun j => decide (loadState exPall
 disk is recoverable, but a temp file stays. (2) killed after the history row of epoch 2 and before
 the clean-up: the superseded checkpoint of epoch 1 stays for ever. -/
 theorem C16_exact_after_crash_counterexample :
-    (let d := faulty Quirks.fixed exP [some 500] exTr Disk.blank [(0, 3)]
+    (let d := faulty Quirks.fixed exP [some 500] exTr Disk.blank [(0, 3, false)]
      recOk exP [some 500] exTr d = true ∧ exactLBOk exP [some 500] d 1 = false ∧
        d.files.get (.tmp 0) = some (.model 1)) ∧
-    (let d := faulty Quirks.fixed exP exVals exTr Disk.blank [(1, 10)]
+    (let d := faulty Quirks.fixed exP exVals exTr Disk.blank [(1, 10, false)]
      recOk exP exVals exTr d = true ∧ exactLBOk exP exVals d 3 = false ∧
        d.files.get (.model 1) = some (.model 1) ∧ bestOf exVals = 2) := by
   decide
@@ -191,15 +336,76 @@ example : recOk (constP false) [some 500, some 400] exTr
     (runLoop Quirks.fixed (constP false) [some 500, some 400] exTr 1 0 (0, 0) Disk.blank).2.2 = true ∧
     U exTr 2 ≠ U exTr 1 := by decide
 
+/-- A metric as a file key: injective. -/
+def exG : Option Int → Nat
+  | none => 0
+  | some (.ofNat n) => 2 * n + 1
+  | some (.negSucc n) => 2 * n + 2
+
+theorem exG_inj : ∀ a b, exG a = exG b → a = b := by
+  intro a b h
+  cases a with
+  | none => cases b with
+    | none => rfl
+    | some y => cases y <;> simp [exG] at h <;> omega
+  | some x => cases b with
+    | none => cases x <;> simp [exG] at h <;> omega
+    | some y =>
+      cases x <;> cases y <;> simp only [exG] at h
+      · congr 2; omega
+      · omega
+      · omega
+      · congr 2; omega
+
+/-- **Names formatted from the metric** (same known finding: a format without `{epoch}`).
+(a) metrics 500, 600, 600, keep-last-and-best: epoch 3 repeats epoch 2's metric and is not the
+best, so its row goes first; killed after 2 calls the history names epoch 3, the file under its
+name holds epoch 2's state; `C16_metric_format_iff` says so (`SafeFmt` fails);
+(b) metrics 500, 600, 500: epoch 3 ties with the best epoch 1 and would overwrite it: refused;
+(c) metrics 500, 400, 450, 300: all different — `SafeFmt` holds, every theorem above applies, e.g.
+a crash schedule ends with the uninterrupted history. -/
+theorem C16_metric_format_counterexample :
+    (let vals := [some 500, some 600, some 600]
+     let P := metricP true exG vals
+     let d := crashSession Quirks.fixed P vals exTr Disk.blank 2 2
+     recorded d = some 3 ∧ loadState P d 3 = some (U exTr 2) ∧ recOk P vals exTr d = false ∧
+       ¬ SafeFmt P vals) ∧
+    (let vals := [some 500, some 600, some 500]
+     ∀ d s, planUpdate Quirks.fixed (metricP true exG vals) vals 2 d s = .error .wouldOverwriteBest) ∧
+    (let vals := [some 500, some 400, some 450, some 300]
+     let P := metricP true exG vals
+     SafeFmt P vals ∧
+       (faulty Quirks.fixed P vals exTr Disk.blank [(1, 7, false), (0, 12, false), (1, 9, true)]).csv =
+         some [.header, .row 1, .row 2, .row 3, .row 4]) := by
+  refine ⟨⟨by decide, by decide, by decide, ?_⟩, fun d s => rfl, ?_, by decide⟩
+  · intro h
+    have := (h 2 (by decide)).2
+    revert this
+    decide
+  · rw [metricP_safeFmt_iff exG exG_inj]
+    intro k hk
+    have hk' : k < 4 := hk
+    have : k = 0 ∨ k = 1 ∨ k = 2 ∨ k = 3 := by omega
+    rcases this with rfl | rfl | rfl | rfl <;> decide
+
+/-- `best_is_train=True` keeps the best epoch BY THE TRAINING METRIC: the best by validation metric
+(what `load_model_for_epoch(model)` loads by default) is deleted like any other superseded epoch —
+callers have to pass the same flag when loading. -/
+theorem C16_best_is_train_counterexample :
+    (let d := faulty Quirks.fixed exP (deciding true exMs) exTr Disk.blank []
+     bestOf (deciding false exMs) = 1 ∧ loadState exP d 1 = none ∧
+       loadState exP d (bestOf (deciding true exMs)) = some (U exTr 2)) := by
+  decide
+
 /-! ## the two defects of the pinned tree that `fixes/C16-*.diff` repair -/
 
-/-- Pinned `write_header = not exists(csv)`: killed between `open(csv, "a")` and the buffered write
-of the first update (9 mutating calls), restarted: the header is never written and the next
-controller cannot be constructed. The repaired variant recovers. -/
+/-- Pinned `write_header = not exists(csv)`: killed between `open(csv, "a")` and the write of the
+header line of the first update (9 mutating calls), restarted: the header is never written and the
+next controller cannot be constructed. The repaired variant recovers. -/
 theorem C16_pinned_header_counterexample :
-    (let d := faulty Quirks.pinned exP [some 500, some 400] exTr Disk.blank [(0, 9)]
+    (let d := faulty Quirks.pinned exP [some 500, some 400] exTr Disk.blank [(0, 9, false)]
      d.csv = some [.row 1, .row 2] ∧ recorded d = none) ∧
-    (let d := faulty Quirks.fixed exP [some 500, some 400] exTr Disk.blank [(0, 9)]
+    (let d := faulty Quirks.fixed exP [some 500, some 400] exTr Disk.blank [(0, 9, false)]
      d.csv = some [.header, .row 1, .row 2] ∧ recOk exP [some 500, some 400] exTr d = true) := by
   decide
 
